@@ -2164,6 +2164,78 @@ func translate(fd *fnDecl) {
 
 var repoRoot string
 
+// addHelperTargets: a function of a loaded package that a target calls and that is not listed itself (a helper
+// that was extracted, an unexported method) becomes a target too, so that extracting or inlining a helper does
+// not by itself make a function untranslatable. Repeats until nothing is added.
+func addHelperTargets() {
+	for changed := true; changed; {
+		changed = false
+		for _, fd := range append([]*fnDecl{}, targets...) {
+			if fd.opaque || fd.decl == nil {
+				continue
+			}
+			ast.Inspect(fd.decl.Body, func(n ast.Node) bool {
+				c, ok := n.(*ast.CallExpr)
+				if !ok {
+					return true
+				}
+				var fo *types.Func
+				switch f := c.Fun.(type) {
+				case *ast.Ident:
+					fo, _ = fd.pi.info.Uses[f].(*types.Func)
+				case *ast.SelectorExpr:
+					if sel, ok := fd.pi.info.Selections[f]; ok && sel.Kind() == types.MethodVal {
+						fo, _ = sel.Obj().(*types.Func)
+					} else {
+						fo, _ = fd.pi.info.Uses[f.Sel].(*types.Func)
+					}
+				}
+				if fo == nil || fo.Pkg() == nil || byObj[fo.FullName()] != nil {
+					return true
+				}
+				pi := byTypes[fo.Pkg().Path()]
+				if pi == nil {
+					return true
+				}
+				// find the declaration by name and receiver in that package
+				for _, file := range pi.files {
+					for _, d := range file.Decls {
+						fdcl, ok := d.(*ast.FuncDecl)
+						if !ok || fdcl.Body == nil || fdcl.Name.Name != fo.Name() {
+							continue
+						}
+						obj, ok := pi.info.Defs[fdcl.Name].(*types.Func)
+						if !ok || obj.FullName() != fo.FullName() {
+							continue
+						}
+						rn := ""
+						if fdcl.Recv != nil {
+							switch rt := fdcl.Recv.List[0].Type.(type) {
+							case *ast.StarExpr:
+								if id, ok := rt.X.(*ast.Ident); ok {
+									rn = id.Name
+								}
+							case *ast.Ident:
+								rn = rt.Name
+							}
+						}
+						nm := pi.short + "."
+						if rn != "" {
+							nm += rn + "."
+						}
+						nm += fdcl.Name.Name
+						nfd := &fnDecl{key: fnKey{pi.dir, rn, fdcl.Name.Name}, pi: pi, decl: fdcl, obj: obj, leanName: nm}
+						targets = append(targets, nfd)
+						byObj[obj.FullName()] = nfd
+						changed = true
+					}
+				}
+				return true
+			})
+		}
+	}
+}
+
 // extStructs: one `<pkg>.Ext` structure per package with opaque targets (functions that are not translated:
 // cryptography, parsers); a field per function, typed from its Go signature
 func extStructs() string {
@@ -2263,6 +2335,7 @@ func main() {
 		targets = append(targets, fd)
 		byObj[obj.FullName()] = fd
 	}
+	addHelperTargets()
 	computeMutating()
 	computeMutParams()
 	computeUsesFuel()
